@@ -157,6 +157,8 @@ def check_history_line(case, impl):
                 return "tree %d: built %s but the events denote %s" % (i, gfin[:300], d[:300])
     if share is not None:
         g = parts[-1]
+        if g == "share -":
+            return None
         if not g.startswith("share "):
             return "malformed share list"
         got = [int(x) for x in g[6:].split(",")] if g[6:] else []
